@@ -123,3 +123,44 @@ def rand_records(rng, regime, nseg=6, span=14, labels=None, tracks=None, allow_e
             recs.append([s, rng.choice(tracks), rng.choice(labels)])
     rng.shuffle(recs)
     return recs
+
+
+def _snap_ann(a):
+    """everything observable of an annotation, as plain data (no time conversion needed: compared with itself)"""
+    recs = [(s.start, s.end, repr(t), repr(l)) for s, t, l in a.itertracks(yield_label=True)]
+    labs = [repr(l) for l in a.labels()]
+    tl = [(s.start, s.end) for s in a.get_timeline()]
+    ltl = [[(s.start, s.end) for s in a.label_timeline(l)] for l in a.labels()]
+    return (recs, labs, tl, ltl, a.uri, a.modality, len(a))
+
+
+def _edit_everywhere(tb, x):
+    """in-place edits touching every segment of x: a new track, an overwritten label, a deleted track, a new segment"""
+    from pyannote.core import Segment
+    segs = list(x.itersegments())
+    for i, s in enumerate(segs):
+        x[s, "zz_probe_track"] = "zz_probe_label"
+        tracks = sorted(x.get_tracks(s), key=str)
+        x[s, tracks[0]] = "zz_probe_other"
+        if i % 2 and len(tracks) > 1:
+            del x[s, tracks[-1]]
+    far = max([abs(v) for s in segs for v in (s.start, s.end)] + [0]) + 1000
+    x[Segment(far, far + 7), "zz_probe_track"] = "zz_probe_label"
+    if segs:
+        del x[segs[len(segs) // 2]]
+    x.uri = "zz_probe_uri"
+
+
+def assert_independent(tb, derived, source, what):
+    """`derived` was obtained from `source` by an operation that promises a new object: editing either one in place
+    must leave every observation of the other unchanged (the promise "on a copy as requested" / "returns a new
+    annotation" of the deriving operations; C08 studies it for its own sake, here it guards each property's
+    operations)"""
+    if derived is source:
+        return
+    before = _snap_ann(source)
+    _edit_everywhere(tb, derived)
+    assert _snap_ann(source) == before, f"editing the result of {what} changed its source"
+    before = _snap_ann(derived)
+    _edit_everywhere(tb, source)
+    assert _snap_ann(derived) == before, f"editing the source of {what} changed the earlier result"
